@@ -35,6 +35,28 @@ func c03VBytes(b []byte) SX {
 func c03VNil() SX                    { return L(I(11)) }
 func c03VPtr(v SX) SX                { return L(I(12), v) }
 
+// the address of element i of the slice with identity a (C03/Lang.v VRef)
+func c03VRef(a int64, i int, v SX) SX { return L(I(17), Z(a), I(i), v) }
+
+// The slice the constructor under test was given, when its elements are delivered by address
+// (ObjectValues): a pointer an encoder receives is projected as "element i of that slice" exactly
+// when it IS &slice[i]; a pointer to anything else (a copy of the element, however faithful) is
+// projected as a pointer without identity.
+var c03ElemBase reflect.Value
+
+func c03ElemIndex(p uintptr) (int64, int, bool) {
+	b := c03ElemBase
+	if !b.IsValid() || b.Kind() != reflect.Slice {
+		return 0, 0, false
+	}
+	for i := 0; i < b.Len(); i++ {
+		if b.Index(i).Addr().Pointer() == p {
+			return c03SliceID(b), i, true
+		}
+	}
+	return 0, 0, false
+}
+
 // identity of a slice (backing array pointer + length): what reflect.DeepEqual's shortcut looks at
 type c03SliceKey struct {
 	p uintptr
@@ -381,6 +403,9 @@ func c03ProjRV(rv reflect.Value) SX {
 		if rv.IsNil() {
 			return c03VNil()
 		}
+		if a, i, ok := c03ElemIndex(rv.Pointer()); ok {
+			return c03VRef(a, i, c03Opq(rv.Elem().Interface()))
+		}
 		return c03VPtr(c03Opq(rv.Elem().Interface()))
 	case t.Implements(c03IderType):
 		return c03Opq(rv.Interface())
@@ -442,9 +467,34 @@ func c03ProjRV(rv reflect.Value) SX {
 
 // ---------- recording encoder ----------
 
-type c03rec struct{ calls []SX }
+// The recording encoder KEEPS the user marshalers it is handed and looks at them only when the
+// marshaler that delivered them has returned (finish), as an encoder that buffers, samples or
+// encodes asynchronously does: what it then finds must still be the caller's value.  zap's own
+// marshalers (wrapper slices, the pooled errArrayElem) are run on the spot -- they are zap's code.
+type c03kept struct {
+	at   int
+	m, k string
+	v    interface{}
+}
+
+type c03rec struct {
+	calls []SX
+	kept  []c03kept
+}
 
 func (r *c03rec) add(m, k string, v SX) { r.calls = append(r.calls, c03Call(m, k, v)) }
+
+func (r *c03rec) keep(m, k string, v interface{}) {
+	r.kept = append(r.kept, c03kept{len(r.calls), m, k, v})
+	r.calls = append(r.calls, nil)
+}
+
+func (r *c03rec) finish() {
+	for _, d := range r.kept {
+		r.calls[d.at] = c03Call(d.m, d.k, c03Proj(d.v))
+	}
+	r.kept = nil
+}
 
 func c03IsUser(x interface{}) bool {
 	_, ok := x.(c03ider)
@@ -453,21 +503,23 @@ func c03IsUser(x interface{}) bool {
 
 func (r *c03rec) AddArray(k string, m zapcore.ArrayMarshaler) error {
 	if c03IsUser(m) {
-		r.add("AddArray", k, c03Proj(m))
+		r.keep("AddArray", k, m)
 		return nil
 	}
 	sub := &c03rec{}
 	err := m.MarshalLogArray(sub)
+	sub.finish()
 	r.add("AddArray", k, c03VCalls(sub.calls))
 	return err
 }
 func (r *c03rec) AddObject(k string, m zapcore.ObjectMarshaler) error {
 	if c03IsUser(m) {
-		r.add("AddObject", k, c03Proj(m))
+		r.keep("AddObject", k, m)
 		return nil
 	}
 	sub := &c03rec{}
 	err := m.MarshalLogObject(sub)
+	sub.finish()
 	r.add("AddObject", k, c03VCalls(sub.calls))
 	return err
 }
@@ -500,21 +552,23 @@ func (r *c03rec) OpenNamespace(k string) { r.add("OpenNamespace", k, c03VNil()) 
 
 func (r *c03rec) AppendArray(m zapcore.ArrayMarshaler) error {
 	if c03IsUser(m) {
-		r.add("AppendArray", "", c03Proj(m))
+		r.keep("AppendArray", "", m)
 		return nil
 	}
 	sub := &c03rec{}
 	err := m.MarshalLogArray(sub)
+	sub.finish()
 	r.add("AppendArray", "", c03VCalls(sub.calls))
 	return err
 }
 func (r *c03rec) AppendObject(m zapcore.ObjectMarshaler) error {
 	if c03IsUser(m) {
-		r.add("AppendObject", "", c03Proj(m))
+		r.keep("AppendObject", "", m)
 		return nil
 	}
 	sub := &c03rec{}
 	err := m.MarshalLogObject(sub)
+	sub.finish()
 	r.add("AppendObject", "", c03VCalls(sub.calls))
 	return err
 }
